@@ -16,7 +16,7 @@ From Coq Require Import ZArith List Bool.
 From V Require Import Result LazyTree World WorldGuard WorldRun ForestDefs InvDefs WorldInv WorldProps.
 From V Require SetOpsProofs ModListProofs SymxProofs.
 From V Require Import SeqOps SetAlg.
-From V Require SeqOpsProofs SetAlgProofs AggregateProofs.
+From V Require SeqOpsProofs SetAlgProofs AggregateProofs MoveAllProofs.
 From Coq Require Import Sorted.
 Import ListNotations.
 Open Scope Z_scope.
@@ -205,6 +205,35 @@ Theorem C16_modlist_extend : forall w known ir vs, reachable_k w known -> op_okb
     (forall x, nodes w' x = if mem x vs then Some (with_par (getn w x) (Some ir)) else nodes w x).
 Proof.
   intros w known ir vs R. exact (ModListProofs.extend_effect w known ir vs (reach_forest w known R) (reach_cache w known R)).
+Qed.
+
+(* "move everything from there to here": the argument is the whole module list of another IR -- all of it arrives, in order, and
+   the other list is left empty (the implementation walks a copy of an owning collection: fix 2ca8079) *)
+Theorem C16_modlist_extend_all_of_another : forall w known ir ir2, reachable_k w known -> ir <> ir2 ->
+  op_okb w known (OModExtend ir (kids w ir2)) = true ->
+  exists w', step w (OModExtend ir (kids w ir2)) = Ok w' /\
+    kids w' ir = kids w ir ++ kids w ir2 /\ kids w' ir2 = [].
+Proof.
+  intros w known ir ir2 R Hne G.
+  pose proof (reach_forest w known R) as HF.
+  destruct (C16_modlist_extend w known ir (kids w ir2) R G) as (w' & E & _ & Happ & Hoth & _).
+  exists w'. split; [exact E|]. split.
+  - apply Happ; [exact (f_nodup w known HF ir2)|].
+    intros v Hv Hin. apply Hne.
+    apply (f_two_ended w known HF) in Hv. apply (f_two_ended w known HF) in Hin. congruence.
+  - rewrite (Hoth ir2 (fun E2 => Hne (eq_sym E2))). apply MoveAllProofs.remove_all_self.
+Qed.
+
+(* l.extend(l): every module is taken out and appended in turn -- the list is what it was *)
+Theorem C16_modlist_extend_self : forall w known ir, reachable_k w known ->
+  op_okb w known (OModExtend ir (kids w ir)) = true ->
+  exists w', step w (OModExtend ir (kids w ir)) = Ok w' /\ kids w' ir = kids w ir.
+Proof.
+  intros w known ir R G.
+  destruct (C16_modlist_extend w known ir (kids w ir) R G) as (w' & E & Hfold & _).
+  exists w'. split; [exact E|]. rewrite Hfold.
+  pose proof (MoveAllProofs.extend_rotate (kids w ir) [] ) as Hr. rewrite app_nil_r in Hr. cbn [app] in Hr.
+  apply Hr. exact (f_nodup w known (reach_forest w known R) ir).
 Qed.
 
 (* remove(v): ValueError exactly when v is not in the list *)
@@ -572,6 +601,8 @@ Print Assumptions C16_set_algebra_example.
 Print Assumptions C16_modlist_append.
 Print Assumptions C16_modlist_insert.
 Print Assumptions C16_modlist_extend.
+Print Assumptions C16_modlist_extend_all_of_another.
+Print Assumptions C16_modlist_extend_self.
 Print Assumptions C16_modlist_remove.
 Print Assumptions C16_modlist_pop_delitem.
 Print Assumptions C16_modlist_delslice.
